@@ -75,6 +75,19 @@ var c09Fixture = sync.OnceValue(func() *c09fix {
 	return f
 })
 
+// c09KeyPool: 40 distinct BLS public keys (built once per process).
+var c09KeyPool = sync.OnceValue(func() []crypto.PublicKey {
+	out := make([]crypto.PublicKey, 40)
+	for i := range out {
+		sk, err := crypto.GeneratePrivateKey(crypto.BLSBLS12381, bytes.Repeat([]byte{byte(40 + i)}, 32))
+		if err != nil {
+			panic(err)
+		}
+		out[i] = sk.PublicKey()
+	}
+	return out
+})
+
 // bv returns a byte-slice variant around the target length L.
 func bv(r *rand.Rand, L int, valid []byte) ([]byte, string) {
 	switch r.IntN(12) {
@@ -427,6 +440,89 @@ func c09Families() []c09family {
 								return bad("BatchVerifyBLSSignaturesOneMessage", desc, "true in the result although an error was returned")
 							}
 						}
+					}
+					return ""
+				}}
+			}
+		}},
+		// well-formed, consistent lists of EVERY size 1..260 (so that the C layer runs to the end of its
+		// per-group buffers: a stack/heap switch or a batch boundary at some exact size has nowhere to hide)
+		{"list-sizes", fixedN(840, 6240), func(r *rand.Rand, i int) c09cmd {
+			n := 1 + (i/6)%260 // (quick: sizes 1..140, thorough: 1..260 four times)
+			pool := c09KeyPool()
+			desc := fmt.Sprintf("well-formed lists of size n=%d", n)
+			switch i % 6 {
+			case 0: // n messages under one key
+				pks, msgs, hs := make([]crypto.PublicKey, n), make([][]byte, n), make([]hash.Hasher, n)
+				for j := range pks {
+					pks[j], msgs[j], hs[j] = fx.blsPk, []byte(fmt.Sprintf("m%d", j)), fx.kmac
+				}
+				return c09cmd{"VerifyBLSSignatureManyMessages", desc + ", one key", func() string {
+					if _, err := crypto.VerifyBLSSignatureManyMessages(pks, fx.blsSig, msgs, hs); err != nil {
+						return bad("VerifyBLSSignatureManyMessages", desc, err.Error())
+					}
+					return ""
+				}}
+			case 1: // n keys on one message
+				pks, msgs, hs := make([]crypto.PublicKey, n), make([][]byte, n), make([]hash.Hasher, n)
+				for j := range pks {
+					pks[j], msgs[j], hs[j] = pool[j%len(pool)], fx.msg, fx.kmac
+				}
+				return c09cmd{"VerifyBLSSignatureManyMessages", desc + ", one message", func() string {
+					if _, err := crypto.VerifyBLSSignatureManyMessages(pks, fx.blsSig, msgs, hs); err != nil {
+						return bad("VerifyBLSSignatureManyMessages", desc, err.Error())
+					}
+					return ""
+				}}
+			case 2: // two keys, sizes n and 1; all messages distinct
+				pks, msgs, hs := make([]crypto.PublicKey, n+1), make([][]byte, n+1), make([]hash.Hasher, n+1)
+				for j := range pks {
+					pks[j], msgs[j], hs[j] = pool[0], []byte(fmt.Sprintf("m%d", j)), fx.kmac
+				}
+				pks[n/2] = pool[1]
+				return c09cmd{"VerifyBLSSignatureManyMessages", desc + ", two keys", func() string {
+					if _, err := crypto.VerifyBLSSignatureManyMessages(pks, fx.blsSig, msgs, hs); err != nil {
+						return bad("VerifyBLSSignatureManyMessages", desc, err.Error())
+					}
+					return ""
+				}}
+			case 3:
+				sigs := make([]crypto.Signature, n)
+				for j := range sigs {
+					sigs[j] = fx.blsSig
+				}
+				return c09cmd{"AggregateBLSSignatures", desc, func() string {
+					if _, err := crypto.AggregateBLSSignatures(sigs); err != nil {
+						return bad("AggregateBLSSignatures", desc, err.Error())
+					}
+					return ""
+				}}
+			case 4:
+				pks, sigs := make([]crypto.PublicKey, n), make([]crypto.Signature, n)
+				for j := range pks {
+					pks[j], sigs[j] = pool[j%len(pool)], fx.blsSig
+				}
+				return c09cmd{"BatchVerifyBLSSignaturesOneMessage", desc, func() string {
+					if _, err := crypto.BatchVerifyBLSSignaturesOneMessage(pks, sigs, fx.msg, fx.kmac); err != nil {
+						return bad("BatchVerifyBLSSignaturesOneMessage", desc, err.Error())
+					}
+					return ""
+				}}
+			default:
+				pks := make([]crypto.PublicKey, n)
+				for j := range pks {
+					pks[j] = pool[j%len(pool)]
+				}
+				return c09cmd{"AggregateBLSPublicKeys+Remove+OneMessage", desc, func() string {
+					agg, err := crypto.AggregateBLSPublicKeys(pks)
+					if err != nil {
+						return bad("AggregateBLSPublicKeys", desc, err.Error())
+					}
+					if _, err := crypto.RemoveBLSPublicKeys(agg, pks[:n/2]); err != nil {
+						return bad("RemoveBLSPublicKeys", desc, err.Error())
+					}
+					if _, err := crypto.VerifyBLSSignatureOneMessage(pks, fx.blsSig, fx.msg, fx.kmac); err != nil {
+						return bad("VerifyBLSSignatureOneMessage", desc, err.Error())
 					}
 					return ""
 				}}
